@@ -11,6 +11,7 @@
 #include "vdec.h"
 #include <ctype.h>
 #include <soundswallower/dict.h>
+#include <soundswallower/alignment.h>
 #include <soundswallower/err.h>
 #include <soundswallower/ckd_alloc.h>
 
@@ -121,6 +122,44 @@ static void use_word(decoder_t *d, vh_rng *r, const model *m, int mi)
     vh_count("utterances_with_added_words", 1);
 }
 
+/* any added word, whatever its pronunciation (one phone, many phones, phones no dictionary word of that length uses), at the start, in the
+ * middle or at the end of an alignment text: the text is accepted, and when the utterance aligns, the phone level of the alignment
+ * spells the word with exactly the phones it was added with (every context table the aligner consults must know the word) */
+static void align_word(decoder_t *d, vh_rng *r, const model *m, int mi)
+{
+    long nr; const int16_t *rec = vd_recording(0, &nr); vd_audio a; vd_pattern p; vd_runinfo info; char text[900]; const mword *w = &m->w[mi];
+    int pos = (int)vh_below(r, 4); alignment_t *al; alignment_iter_t *wi, *pi; int found = 0, other = 0;
+    if (strlen(w->word) > 200 || strpbrk(w->word, " \t\n\r")) return;
+    a.s = (int16_t *)rec; a.n = nr; a.samprate = 16000; memset(&p, 0, sizeof(p)); p.full_utt = vh_chance(r, 0.5);
+    snprintf(text, sizeof(text), pos == 0 ? "%s go forward ten meters" : pos == 1 ? "go %s ten meters" : pos == 2 ? "go forward ten meters %s" : "go forward %s %s ten meters", w->word, w->word);
+    vh_ctx("decoder_set_align_text");
+    if (decoder_set_align_text(d, text) != 0) { vh_viol("new_word_not_usable_in_align_text", "decoder_set_align_text(\"%s\") failed after adding '%s' as '%s'", text, w->word, w->pron); return; }
+    decoder_set_cmn(d, "40,3,-1");
+    if (vd_run(d, &a, r, &p, NULL, NULL, &info) != 0) { vh_viol("utterance_with_new_word_failed", "decoding with '%s' failed", w->word); return; }
+    vh_count("alignment_texts_with_added_words_of_any_pronunciation", 1);
+    if (!decoder_hyp(d, NULL)) { vh_count("alignment_texts_with_added_words_not_aligned_by_the_first_pass", 1); return; }
+    vh_ctx("decoder_alignment"); al = decoder_alignment(d);
+    if (!al) { vh_viol("no_alignment_with_added_word", "text \"%s\" was recognised but decoder_alignment returned NULL ('%s' added as '%s')", text, w->word, w->pron); return; }
+    for (wi = alignment_words(al); wi; wi = alignment_iter_next(wi)) {
+        const char *nm = alignment_iter_name(wi); char got[1700]; size_t L = 0;
+        if (!nm) continue;
+        if (strcmp(nm, w->word)) {
+            /* the text names a word, the first pass may take any pronunciation variant of it (fsgusealtpron): another variant of the
+             * same base spelling stands for the word just as well */
+            char b1[400], b2[400]; vd_base_word(nm, b1, sizeof(b1)); vd_base_word(w->word, b2, sizeof(b2));
+            if (!strcmp(b1, b2) || !strcmp(nm, m->w[w->base].word)) ++other;
+            continue;
+        }
+        got[0] = 0;
+        for (pi = alignment_iter_children(wi); pi; pi = alignment_iter_next(pi)) { const char *pn = alignment_iter_name(pi); L += (size_t)snprintf(got + L, sizeof(got) - L, "%s%s", L ? " " : "", pn ? pn : "?"); if (L > sizeof(got) - 40) { alignment_iter_free(pi); break; } }
+        if (strcmp(got, w->pron)) { vh_viol("aligned_phones_differ_from_added_pronunciation", "'%s' was added as '%s', the alignment of \"%s\" spells it '%s'", w->word, w->pron, text, got); alignment_iter_free(wi); return; }
+        ++found;
+    }
+    if (!found && other) { vh_count("added_words_aligned_as_another_variant_of_the_same_word", 1); return; }
+    if (!found) vh_viol("added_word_missing_from_alignment", "the alignment of \"%s\" has no word entry '%s'", text, w->word);
+    else { vh_count("added_words_found_in_phone_alignments", found); if (!strchr(w->pron, ' ')) vh_count("one_phone_added_words_aligned", 1); }
+}
+
 static void run(long i, vh_rng *r)
 {
     vd_cfg cfg; decoder_t *d; dict_t *dc; const vd_lex *lx = vd_lexicon(VD_EN); model m; snap *sn; int ns = 0, nsamp = 120, k, nops, big = (i % 40 == 7);
@@ -180,6 +219,7 @@ static void run(long i, vh_rng *r)
                 if (vh_chance(r, 0.5)) { char alt[420]; snprintf(alt, sizeof(alt), "%s(2)", word); rv = decoder_add_word(d, alt, "F AO R W ER D", 1); if (rv >= 0) { cand = m_add(&m, alt, "F AO R W ER D", cand, rv); ++nok; } else vh_viol("valid_addition_rejected", "alternate '%s' of a word just added was rejected", alt); }
             }
             use_word(d, r, &m, cand);
+            if (m.n > 0) align_word(d, r, &m, vh_chance(r, 0.6) ? m.n - 1 - (int)vh_below(r, (uint32_t)(m.n < 8 ? m.n : 8)) : (int)vh_below(r, (uint32_t)m.n));
             continue;
         }
         /* a spelling that happens to look like an alternate "x(y)" of a missing base is a rejection */
